@@ -17,7 +17,14 @@ variables (see harness/c17_session.py): instance()/replicate() for a platform ([
 get_environment(name, platform) and a FlowIRExperimentConfiguration built on the object for a platform (primitive or
 not; environmentForNode of a component and environmentWithName(name, expand=False)).  Every question is also put to a
 FRESH object built from the same document, and the configuration questions to a fresh object built from the document
-WITHOUT the environments of any other name."""
+WITHOUT the environments of any other name.
+A case {'csession': {...}} is a sequence of CHANGES and questions put to ONE FlowIRExperimentConfiguration created from such a
+document ('init': platform / nonprim / sysv / launch): parametrize(platform, systemvars, primitive) as graphFromPackage() /
+experimentFromPackage() call it on the configuration object of a package, add_environment(name, environment, platform),
+os.environ replaced by another launch environment; questions environmentForNode(component) + environmentWithName(its
+environment, expand=False), environmentWithName(name), defaultEnvironment().  Every question is also put to a FRESH
+configuration object created from the same document for the CURRENT platform / route / system variables, to which the
+add_environment calls made since the last parametrize() are replayed, under the current launch environment."""
 import json
 import logging
 import os
@@ -102,6 +109,87 @@ def run_session(F, C, s):
     return out
 
 
+def new_conf(F, C, s, plat, nonprim, sysv):
+    return C.FlowIRExperimentConfiguration(
+        concrete=F.FlowIRConcrete(session_doc(s), plat, {}), path=None, is_instance=False, primitive=not nonprim, manifest={},
+        createInstanceFiles=False, updateInstanceFiles=False, variable_substitute=True, platform=plat, variable_files=None,
+        system_vars={k: v for k, v in sysv}, config_patches=None, validate=False)
+
+
+def conf_add(conf, op, plat):
+    target = {None: None, 'default': 'default', 'active': plat}[op['target']]
+    try:
+        conf.add_environment(op['name'], {k: v for k, v in op['env']}, target)
+        return 'stored'
+    except Exception as e:  # noqa
+        return type(e).__name__
+
+
+def conf_question(conf, op, s):
+    kind = op['op']
+    if kind == 'node':
+        cm = s['comps'][op['comp']]
+        r = {}
+        try:
+            r['full'] = canon_env(conf.environmentForNode('stage0.c%d' % op['comp']))
+        except Exception as e:  # noqa
+            r['full'] = type(e).__name__
+        try:
+            r['unexp'] = canon_env(conf.environmentWithName(cm['name'], expand=False))
+        except Exception as e:  # noqa
+            r['unexp'] = type(e).__name__
+        return r
+    try:
+        if kind == 'name':
+            return canon_env(conf.environmentWithName(op['name']))
+        if kind == 'default':
+            return canon_env(dict(conf.defaultEnvironment()))
+    except Exception as e:  # noqa
+        return type(e).__name__
+    return 'BADOP'
+
+
+def set_launch(launch):
+    os.environ.clear()
+    os.environ.update({k: v for k, v in launch})
+
+
+def run_csession(F, C, s):
+    """returns (answers, the launch environment that must be in place at the end)"""
+    init = s['init']
+    plat, nonprim, sysv, launch = init['platform'], init['nonprim'], init['sysv'], init['launch']
+    set_launch(launch)
+    conf = new_conf(F, C, s, plat, nonprim, sysv)
+    adds = []                  # add_environment calls since the object was (re)parametrized
+    out = []
+    for op in s['ops']:
+        kind = op['op']
+        if kind == 'param':
+            plat, nonprim, sysv = op['platform'], op['nonprim'], op['sysv']
+            try:
+                ret = conf.parametrize(platform=plat, variable_files=None, systemvars={k: v for k, v in sysv}, is_instance=False,
+                                       createInstanceFiles=False, primitive=not nonprim, updateInstanceFiles=False,
+                                       validate=False)
+                out.append({'ans': 'ok' if ret is conf else 'NOTSELF'})
+            except Exception as e:  # noqa
+                out.append({'ans': type(e).__name__ + ': ' + str(e)[:200]})
+            adds = []
+        elif kind == 'launch':
+            launch = op['launch']
+            set_launch(launch)
+            out.append({'ans': 'ok'})
+        else:
+            fresh = new_conf(F, C, s, plat, nonprim, sysv)
+            for a in adds:
+                conf_add(fresh, a, plat)
+            if kind == 'add':
+                out.append({'ans': conf_add(conf, op, plat), 'fresh': conf_add(fresh, op, plat)})
+                adds.append(op)
+            else:
+                out.append({'ans': conf_question(conf, op, s), 'fresh': conf_question(fresh, op, s)})
+    return out, launch
+
+
 def main():
     cases = json.load(open(sys.argv[1]))
     import experiment.model.graph as G
@@ -133,6 +221,22 @@ def main():
                 except Exception as e:  # noqa
                     r = {'build': type(e).__name__ + ': ' + str(e)[:300]}
                 if list(os.environ.items()) != [(k, v) for k, v in s['launch']]:
+                    r['launch_modified'] = dict(os.environ)
+            finally:
+                os.environ.clear()
+                os.environ.update(keep)
+            out.append(r)
+            continue
+        if 'csession' in c:
+            s = c['csession']
+            launch = s['init']['launch']
+            try:
+                try:
+                    ops, launch = run_csession(F, C, s)
+                    r = {'ops': ops}
+                except Exception as e:  # noqa
+                    r = {'build': type(e).__name__ + ': ' + str(e)[:300]}
+                if list(os.environ.items()) != [(k, v) for k, v in launch]:
                     r['launch_modified'] = dict(os.environ)
             finally:
                 os.environ.clear()
